@@ -54,6 +54,7 @@ func runVerdict(t *testing.T, rc *core.RunCtx) {
 		modes[i] = tp.Intn(4)
 		k := kinds[tp.Intn(len(kinds))]
 		beh.TxMode, beh.RejectCode, beh.RejectReason = modes[i], k.code, k.reason
+		beh.ForeignReject = tp.Chance(1, 3)
 		repeats[i] = 1
 		if tp.Chance(1, 3) {
 			repeats[i] = 2 + tp.Intn(3)
